@@ -463,6 +463,10 @@ def raw(recipe):
                 t[:, c] = t[prng.choice(_WEDGE_ORDERS), c]
     order = int(recipe.get("order", 1))
     clsname = CLS1[cell] if order == 1 else CLS2[cell]
+    if recipe.get("stretch"):
+        # strongly anisotropic version of the same mesh (thin plates, needles)
+        f = np.array(recipe["stretch"], dtype=float)[:P.shape[0]]
+        P = P * f[:, None]
     if recipe.get("scale"):
         # the same mesh in other units (millimetre-size geometry in metres...)
         P = P * float(recipe["scale"])
